@@ -93,7 +93,8 @@ pub fn gen(seed: u64, cases: usize, flavour: &str, path: &str) {
                 if g.rng.chance(1, 6) {
                     // small, large, impossible, or exactly the broker's whole cash balance
                     if g.rng.chance(1, 4) {
-                        g.line("WD cash");
+                        let w = *g.rng.pick(&["WD cash", "WD cash", "WD cash*up", "WD cash*down"]);
+                        g.line(w);
                     } else {
                         let x = *g.rng.pick(&[10.0, 500.0, 1e9]);
                         g.line(&format!("WD {}", fb(x)));
@@ -101,7 +102,7 @@ pub fn gen(seed: u64, cases: usize, flavour: &str, path: &str) {
                     g.stats.bump("WD");
                 }
                 if g.rng.chance(1, 15) {
-                    let x = *g.rng.pick(&[64.0, 1000.0]);
+                    let x = *g.rng.pick(&[64.0, 1000.0, 1002.9, 7000.7]);
                     g.line(&format!("INIT {}", fb(x)));
                     g.stats.bump("second_deposit");
                 }
@@ -168,7 +169,14 @@ fn run_case<C: UistClient + StateView>(mut strat: Strat<C>, id: BacktestId, line
                 out.emit(&format!("{line} @ W {w}"), &format!("EV ok ; {tl}"));
             }
             "WD" => {
-                let x = if t[1] == "cash" { strat.verif_brkr().get_cash_balance() } else { pf(t[1]) };
+                let c = strat.verif_brkr().get_cash_balance();
+                // the whole balance, or the balance moved by one unit in the last place
+                let x = match t[1] {
+                    "cash" => c,
+                    "cash*up" | "cash*down" if c.is_finite() && c != 0.0 => f64::from_bits(if (t[1] == "cash*up") == (c > 0.0) { c.to_bits() + 1 } else { c.to_bits() - 1 }),
+                    "cash*up" | "cash*down" => c,
+                    _ => pf(t[1]),
+                };
                 let line = format!("WD {}", fb(x));
                 let e = match strat.withdraw_cash(&x) {
                     alator::strategy::StrategyEvent::WithdrawSuccess(_) => "WOK",
